@@ -4,7 +4,7 @@ C12 (sync<->async)."""
 import re
 import mirlib
 import codec
-from mirlib import short, show
+from mirlib import short, show, subexprs, strip_refs
 
 FAMILIES = {
     'binary': {
@@ -171,12 +171,17 @@ def header_array_layout(w):
             if idx is None:
                 continue
             rv = w.expr_rvalue(st['r'])
-            txt = show(rv)
-            if 'field_type' in txt:
-                out[idx] = 'type'
-            else:
-                m = re.search(r'to_[bl]e_bytes\(\w+\)\[(\d)\]', txt)
-                out[idx] = 'id[%s]' % m.group(1) if m else txt[:30]
+            what = None
+            for sub in subexprs(rv):
+                # names of parameters are not significant: the type is the enum argument, the id the i16 one
+                if sub[0] == 'discr' and strip_refs(sub[1])[0] == 'arg':
+                    what = 'type'
+                    break
+                if sub[0] in ('index', 'cindex') and sub[1][0] == 'call' and re.search(r'to_[bl]e_bytes$', sub[1][1]) and strip_refs(sub[1][2][0])[0] == 'arg':
+                    k = sub[2] if sub[0] == 'cindex' else (sub[2][1] if sub[2][0] == 'const' else '?')
+                    what = 'id[%s]' % k
+                    break
+            out[idx] = what or show(rv)[:30]
     return out
 
 
